@@ -5,6 +5,8 @@ M  RawMC.tla      : Raw.tla (put_src(reparse) / raw node put / put_src(None) / r
                     clause conjunction of RawLaws), and the text operators against a character-wise reference.
 G  RawGen.tla     : TLC emits the complete case table of the flat-Python instance with the spec's expectation; every
                     row is executed on pfst; the spec's oracle is cross-checked against ast.parse row by row.
+   RawHdrGen.tla  : TLC enumerates raw edits confined to block headers (every block kind with its elif/else/except/
+                    finally tails, keyword changed to every other block keyword, several offsets) and builds the texts.
 V  RawTrace.tla   : every recorded call (table rows and random raw-edit histories over the corpus) is validated by TLC:
                     clauses TextIsSplice, TreeIsFullParse.struct/.pos, AcceptIffValid.acceptedInvalid/.refusedValid,
                     AtomicOnRaise, RootIdentity; the edit class of every event is computed by the spec.
@@ -61,6 +63,21 @@ def _table_shard(args):
     for k, row in enumerate(rows):
         tid = base + k + 1
         tr, sc, bad = R.run_table_row(rec, tid, row)
+        if bad:
+            mism.append(bad)
+        traces.append(tr)
+        scripts[tid] = sc
+    return dict(rec.dump(), traces=traces), scripts, mism
+
+
+def _hdr_shard(args):
+    shard_id, rows, base = args
+    from harness import c10_raw as R
+    rec = R.RawRecorder()
+    traces, scripts, mism = [], {}, []
+    for k, row in enumerate(rows):
+        tid = base + k + 1
+        tr, sc, bad = R.run_hdr_row(rec, tid, row)
         if bad:
             mism.append(bad)
         traces.append(tr)
@@ -179,17 +196,18 @@ def shard(specs, n):
     return [(k, specs[k::n]) for k in range(n)]
 
 
-def gen_table(ctx, cfg):
+def gen_table(ctx, cfg, module='RawGen'):
     out = os.path.join(tlc.scratch(), f'rawgen-{cfg}.json')
     try:
-        r = tlc.run_model('RawGen', cfg, workers=1, coverage=False, timeout=1500, env={'OUT_FILE': out}, heap='2g')
+        r = tlc.run_model(module, cfg, workers=1, coverage=False, timeout=1500, env={'OUT_FILE': out}, heap='2g')
     except tlc.TLCError as e:
         raise common.Machinery(str(e)) from e
     if r['violated']:
-        raise common.Machinery('RawGen: ' + str(r['violated']))
+        raise common.Machinery(module + ': ' + str(r['violated']))
     with open(out) as f:
         rows = json.load(f)['rows']
-    ctx.models.append({'module': 'RawGen', 'cfg': cfg, 'kind': 'case-table', 'rows': len(rows), 'wall_s': r['wall_s']})
+    with _LOCK:
+        ctx.models.append({'module': module, 'cfg': cfg, 'kind': 'case-table', 'rows': len(rows), 'wall_s': r['wall_s']})
     return rows
 
 
@@ -197,7 +215,9 @@ def run(ctx):
     ctx.rule = ('M: RawMC.tla exhaustive (flat-Python oracle; all valid texts with flat length <= MaxFlat, all rectangles '
                 '+ clipping quadruples, all replacements of flat length <= MaxRepl, unbounded call sequences). '
                 'G: RawGen.tla case table (text x rectangle x replacement with the spec-computed expectation) executed '
-                'row by row on pfst, spec oracle cross-checked with ast.parse. '
+                'row by row on pfst, spec oracle cross-checked with ast.parse; RawHdrGen.tla table of header-confined '
+                'edits (block kind x tail blocks x depth x target header x offsets in the header x keyword / header '
+                'replacement), rows the block grammar predicts invalid cross-checked with ast.parse. '
                 'V: histories of consecutive raw edits (put_src(reparse) via any node, raw node replace with/without '
                 '`to`/`pars`, put_src(None)+reparse(), reparse() of nodes) on corpus programs x layout variants, on a '
                 'family of inline statements after multi-byte text that hold multi-line nodes, and on '
@@ -236,6 +256,18 @@ def run(ctx):
     t0 = time.time()
     phase = {}
 
+    # G (second table, generated concurrently): header-confined edits enumerated by RawHdrGen.tla
+    hdr = {}
+
+    def hdr_gen():
+        try:
+            hdr['rows'] = gen_table(ctx, 'RawHdrGen' if ctx.quick else 'RawHdrGen_thorough', module='RawHdrGen')
+        except Exception as e:  # noqa: BLE001
+            hdr['err'] = e
+
+    ht = threading.Thread(target=hdr_gen)
+    ht.start()
+
     # G
     rows = gen_table(ctx, 'RawGen' if ctx.quick else 'RawGen_thorough')
     ctx.exhaustive = True
@@ -249,6 +281,21 @@ def run(ctx):
                                f'{mism[0]}')
     # merge table shards into fewer batches for TLC
     results = [(r[0], r[1]) for r in gres]
+
+    ht.join()
+    if 'err' in hdr:
+        raise hdr['err']
+    hrows = hdr['rows']
+    per = max(1500, -(-len(hrows) // 6))
+    hres = _pool_map(_hdr_shard, [(k, hrows[i:i + per], 20_000_000 + i) for k, i in enumerate(range(0, len(hrows), per))])
+    hm = [m for r in hres for m in r[2]]
+    if hm:
+        raise common.Machinery(f'RawHdrGen.tla: {len(hm)} rows contradict CPython (program invalid, or a row predicted '
+                               f'invalid by the block grammar parses), e.g. {hm[0]}')
+    results += [(r[0], r[1]) for r in hres]
+    ctx.extra['header_table_rows'] = len(hrows)
+    ctx.extra['header_rows_predicted_invalid'] = sum(1 for r in hrows if r[3])
+    phase['tables_done_s'] = round(time.time() - t0, 1)
 
     # V
     if ctx.quick:
